@@ -251,7 +251,9 @@ func decodeSCTPChunkTypeUnknown(data []byte, p gopacket.PacketBuilder) error {
 
 // SerializeTo is for gopacket.SerializableLayer.
 func (s SCTPUnknownChunkType) SerializeTo(b gopacket.SerializeBuffer, opts gopacket.SerializeOptions) error {
-	bytes, err := b.PrependBytes(s.ActualLength)
+	// The chunk is written as the bytes it was decoded from; ActualLength is
+	// their length for a decoded chunk, and is not trusted otherwise.
+	bytes, err := b.PrependBytes(len(s.bytes))
 	if err != nil {
 		return err
 	}
